@@ -351,7 +351,10 @@ func (ca *CertificateAuthority) upload(ctx context.Context, manifest *cpb.GCECer
 	entry := getEntry(manifest, keyVersionName)
 	if entry != nil {
 		name = entry.ObjectPath
-		if output.AllowRecoverableError(ctx) {
+		// --keep_going skips an existing entry only when replacing it is not permitted, as in
+		// writeIfAllowed. With --overwrite the certificate must be replaced along with the rest of
+		// the mutation, or the manifest keeps pointing at a certificate from a superseded issuer.
+		if output.AllowRecoverableError(ctx) && !output.AllowOverwrite(ctx) {
 			return &overwritten{name: name}, nil
 		}
 		output.Warningf(ctx, "key version exists in manifest %v -> %v", keyVersionName, entry.GetObjectPath())
